@@ -47,7 +47,7 @@ def sample_evenly(items, k):
 
 def run_standard(prop, tier, gens, case_of, trace, key_of, corruptors, init_name, rule, assumptions,
                  timeout=10.0, batch=50, extra_cases=None, nontrivial=None, level='model_checking',
-                 post=None, exhaustive=True, inconclusive_is_violation=False, judge_shard=4000, sort_key=None, history_of=None):
+                 post=None, exhaustive=True, inconclusive_is_violation=False, judge_shard=4000, sort_key=None, history_of=None, history_reverse=False):
     """gens: list of dicts {module, cfg, mode: 'dump'|'sim', num, depth, where}.
     case_of(state) -> case dict (must contain 'api' and the contract case under 'c') or None.
     trace: (module, cfg). key_of(case, clause) -> canonical key dict.
@@ -96,8 +96,14 @@ def run_standard(prop, tier, gens, case_of, trace, key_of, corruptors, init_name
             groups = [by[k] for k in sorted(by)]
             n_groups = len(groups)
             obs2 = pool.run_cases(cases, init_name=init_name, timeout=timeout, progress=prop + '/histories', groups=groups)
-            cases = cases + cases
+            first = list(cases)
+            cases = first + first
             obs = list(obs) + list(obs2)
+            if history_reverse:      # the same groups once more, each in descending order
+                obs3 = pool.run_cases(first, init_name=init_name, timeout=timeout, progress=prop + '/histories-desc', groups=[g[::-1] for g in groups])
+                cases = cases + first
+                obs = obs + list(obs3)
+                n_groups *= 2
         events, inconclusive = [], 0
         for idx, (c, o) in enumerate(zip(cases, obs)):
             if o.get('timeout') and not inconclusive_is_violation:
